@@ -17,6 +17,7 @@ DOC = {
         'C16.R2': 'get_fixed_prefix: the escape flag set on a backslash is cleared when the next character is consumed',
         'C16.R3': 'every string fragment glob_to_regex emits for an operator starts with a character of the stop set (magic_chars + {?,*}); literal characters go through escape()',
         'C16.R4': 'the fixed prefix is lower-cased iff is_partial_match lower-cases the candidate (both controlled by case_insensitive)',
+        'C16.R6': 'Pattern::regex_with anchors the full-match regex at both ends (^...$) and the prefix regex at the start (^...); matches / matches_partially use the anchored one, matches_prefix the prefix one',
         'C16.R5': 'the glob translator joins every parsed token and every alternative: no element-dropping or reordering adaptor (filter, skip, take, dedup, unique, retain, sort, ...) between the parser and the joined regex',
     },
     'not_decided': 'the glob semantics themselves; the regex crate; conservativeness for every glob/path pair (needs bounded-exhaustive testing)',
@@ -32,6 +33,7 @@ def run(ctx):
     r3(ctx, lib)
     r4(ctx, lib)
     r5(ctx, lib)
+    r6(ctx, lib)
 
 
 def r1(ctx, lib):
@@ -199,3 +201,38 @@ def r5(ctx, lib):
         ctx.violation(rule, '%s|%s' % (b.path, c.path.rsplit('::', 1)[-1]), c.where(), 'the translator applies %s to the parsed pieces: alternatives or tokens can be dropped or reordered (e.g. the empty alternative of `{,.bak}`), which changes the language of the glob' % c.path.rsplit('::', 1)[-1])
     if not bad:
         ctx.ok(rule, 'pattern::Pattern::glob_to_regex|no-dropping', bodies[0].where(), 'all %d join sites receive the parsed pieces unfiltered (%d bodies scanned)' % (len(joins), len(bodies)))
+
+
+def r6(ctx, lib):
+    rule = 'C16.R6'
+    b = ctx.need_body(rule, 'pattern::Pattern::regex_with')
+    if b is None:
+        return
+    news = b.calls(r'regex::Regex::new$')
+    if not ctx.floor(rule, 'Regex::new calls in regex_with', len(news), 2, b.where()):
+        return
+    ag = [s_ for bi, s_ in __import__('fcverif.analysis', fromlist=['aggregates']).aggregates(b, 'pattern::Pattern')]
+    if not ag:
+        ctx.missing(rule, 'Pattern construction in regex_with', b.where())
+        return
+    from ..analysis import agg_field
+    for field, want in (('anchored_regex', ['"^"', '"$"']), ('prefix_regex', ['"^"'])):
+        sl = backslice(b, [agg_field(ag[0], field)])
+        src = [c for c in sl.calls if c.matches(r'regex::Regex::new$')]
+        vals = []
+        if src:
+            vals = [v for v in cvals(lib, b, src[0].args[0]) if v in ('"^"', '"$"')]
+        ok = sorted(set(vals)) == sorted(want)
+        ctx.check(ok, rule, '%s|%s' % (b.path, field), (src[0].where() if src else b.where()), '%s = %s + pattern%s' % (field, '^', ' + $' if '"$"' in want else ''),
+                  '%s is built with anchors %s, expected %s' % (field, sorted(set(vals)), want))
+        # the case flag reaches both
+        if src:
+            ctx.check('case_insensitive' in backslice(b, [src[0].args[1]]).field_names(), rule, '%s|%s-case' % (b.path, field), src[0].where(), 'built with opts.case_insensitive', 'not built with the case option')
+    for fn, fld, meth in (('matches', 'anchored_regex', 'is_match'), ('matches_partially', 'anchored_regex', 'is_partial_match'), ('matches_prefix', 'prefix_regex', 'is_match'), ('matches_path', 'anchored_regex', 'is_match')):
+        mb = lib.body('pattern::Pattern::' + fn)
+        if mb is None:
+            ctx.missing(rule, 'fn Pattern::' + fn)
+            continue
+        cs = mb.calls(r'regex::Regex::%s$' % meth)
+        ok = len(cs) == 1 and fld in backslice(mb, [cs[0].args[0]]).field_names() and cs[0].dest[0] == 0
+        ctx.check(ok, rule, mb.path, mb.where(), '%s = %s.%s(..)' % (fn, fld, meth), '%s does not use %s.%s' % (fn, fld, meth))
